@@ -210,7 +210,8 @@ CLAIMS = {
  "C11": dict(
    text=("Theorem C11_refines: for every history of set/get/get-with-default/list calls, from any well-formed object, the "
          "model's results equal those of a reference ordered map (per-section insertion-ordered association lists) and the "
-         "final states correspond; C11_nodup, bracket/group-less/refusal/default laws as separate theorems. Unbounded in "
+         "final states correspond; C11_nodup, bracket/group-less/refusal/default laws and the laws of the reference (overwrite in place, "
+         "no-op set, commuting sets, size, other bindings and other sections untouched: MapLaws.v) as separate theorems. Unbounded in "
          "history length and object size. Correspondence: random histories through the real API."),
    technique="Coq refinement proof (simulation + induction over histories) + differential correspondence",
    ref="6 (C11)"),
